@@ -101,6 +101,28 @@ def main():
         for key, m in outs.items():
             if base is not None and m != base:
                 h.fail('identical_for_every_pool_size_and_fresh_run', dict(wit, num_threads=key[0], PYTHONHASHSEED=key[1]), 'pairwise_ranks.tsv differs')
+    # ---- function level: many pairs per worker (a wide frame, pairwise scope): the rank graph does not depend on args.num_threads
+    import pandas as pd
+    import outrank.core_ranking as CR
+    from rank_common import Pbar, make_args
+    for ncols, ratio in ((40, 1.0), (34, 0.8)):
+        wcols = [f'w{i}' for i in range(ncols)] + ['label']
+        dfw = pd.DataFrame({c: rng.integers(0, 4, 300).astype(str) for c in wcols})
+        graphs = {}
+        for nt in (1, 2, 64):
+            a_ = make_args(heuristic='MI-numba-randomized', target_ranking_only='False', combination_number_upper_bound=10 ** 6,
+                           num_threads=nt, mi_stratified_sampling_ratio=ratio)
+            CR.GLOBAL_PRIOR_COMB_COUNTS.clear()
+            trip = CR.mixed_rank_graph(dfw.copy(), a_, InlinePool(), Pbar()).triplet_scores
+            graphs[nt] = {(x, y): float(sc) for x, y, sc in trip}
+            h.record(('wide', ncols, nt), True, sample={'columns': ncols + 1, 'num_threads': nt})
+        for nt in (2, 64):
+            if graphs[nt] != graphs[1]:
+                diff = [k for k in graphs[1] if graphs[nt].get(k) != graphs[1][k]]
+                h.fail('identical_for_every_pool_size_and_fresh_run',
+                       {'columns': f'{ncols} features with 4 values + label, 300 rows (seed {h.seed})', 'scope': 'pairwise', 'num_threads': [1, nt],
+                        'mi_stratified_sampling_ratio': ratio, 'pairs': len(graphs[1])},
+                       f'{len(diff)} of {len(graphs[1])} scores depend on num_threads, e.g. {diff[:3]}')
     h.bounded_note('pairwise_ranks.tsv identical for pool sizes and string-hash seeds, and equal to an in-process sequential reference',
                    f'pool sizes {pools}, 2 hash seeds, 3 mini-batches with different content, cap 6 of 15 pairs', len(outs))
     return h.finish()
